@@ -17,6 +17,7 @@ the weaker hypothesis "colliding keys are the same object" (e.g. `And(a, a)`); `
 unpackings (`When(And(a, b))`, `And(And(a, b))`).
 -/
 import MysticVerif.Proofs.Termination
+import MysticVerif.Props.C10.Grad
 import Mathlib.Tactic.Linarith
 import Mathlib.Algebra.Order.Ring.Abs
 import Mathlib.Algebra.Order.Field.Rat
@@ -25,7 +26,7 @@ namespace MysticVerif.C10
 open MysticVerif.Term
 
 section Compound
-variable {R : Type} [Add R] [Sub R] [Mul R] [Neg R] [LT R] [DecidableLT R] [LE R] [DecidableLE R]
+variable {R : Type} [Add R] [Sub R] [Mul R] [Div R] [Neg R] [LT R] [DecidableLT R] [LE R] [DecidableLE R]
   [BEq R] [OfNat R 0] [OfNat R 2]
 
 /-- members whose dict keys do not collide (`stop` is keyed by the member objects; tuples compare
@@ -204,7 +205,7 @@ end Compound
 section Build
 variable {R : Type}
 
-variable [Add R] [Sub R] [Mul R] [Neg R] [LT R] [DecidableLT R] [LE R] [DecidableLE R]
+variable [Add R] [Sub R] [Mul R] [Div R] [Neg R] [LT R] [DecidableLT R] [LE R] [DecidableLE R]
   [BEq R] [OfNat R 0] [OfNat R 2]
 
 private theorem build_many (k : Kind) (e1 e2 : Expr R) (es : List (Expr R)) :
@@ -275,11 +276,12 @@ end Build
 section Rebuild
 variable {R : Type}
 
-/-- the parts of a primitive's closure that its doc does not report: the factory's own constant `eta`
-(NormalizedChangeOverGeneration) and the timer readings at construction (TimeLimits) -/
+/-- the parts of a primitive's closure that its doc does not report: the factory's own constant (`eta` of
+NormalizedChangeOverGeneration, the module constant `_epsilon` of GradientNormTolerance) and the timer readings at construction (TimeLimits) -/
 def SameInternals (p : Prim R) (eta s0 s1 s2 : R) : Prop :=
   match p with
   | .ncog _ _ e => e = eta
+  | .gradnormP _ _ e => e = eta
   | .timelimits _ _ a b c => a = s0 ∧ b = s1 ∧ c = s2
   | _ => True
 
@@ -301,7 +303,7 @@ end Rebuild
 (`pyGet?_zero`: `hist[-0]` is the FIRST entry; `pyGet?_neg`: `hist[-g] = hist[len-g]` for `0 < g ≤ len`;
 `pyGet?_last`: `hist[-1]` is the last entry). -/
 
-private theorem eval_eq_test {R : Type} [Add R] [Sub R] [Mul R] [Neg R] [LT R] [DecidableLT R] [LE R] [DecidableLE R]
+private theorem eval_eq_test {R : Type} [Add R] [Sub R] [Mul R] [Div R] [Neg R] [LT R] [DecidableLT R] [LE R] [DecidableLE R]
     [BEq R] [OfNat R 0] [OfNat R 2] (v : View R) (p : Prim R) (h : p.warns v = false) : p.eval v = p.test v := by
   unfold Prim.eval Prim.out
   rw [h]
@@ -576,7 +578,7 @@ theorem gradnorm_spec (v : View K) (tol : K) (hg : v.grad ≠ []) :
 end Prims
 
 section Counters
-variable {R : Type} [Add R] [Sub R] [Mul R] [Neg R] [LT R] [DecidableLT R] [LE R] [DecidableLE R]
+variable {R : Type} [Add R] [Sub R] [Mul R] [Div R] [Neg R] [LT R] [DecidableLT R] [LE R] [DecidableLE R]
   [BEq R] [OfNat R 0] [OfNat R 2]
 
 /-- **EvaluationLimits**: satisfied iff `fcalls ≥ evaluations` or `iterations ≥ generations`, a limit of `None`
